@@ -397,8 +397,9 @@ var exception_catch(var args) {
   }
   
   /* Check Exception against Arguments */
-  foreach(arg in args) {
-    if (eq(arg, e->obj)) {
+  size_t nargs = len(args);
+  for (size_t i = 0; i < nargs; i++) {
+    if (eq(get(args, $I(i)), e->obj)) {
       e->active = false;
       return e->obj;
     }
